@@ -158,26 +158,25 @@ const fn count(x: u128) -> usize {
     return "\n".join(lines) + "\n"
 
 
-def run(impl_self_types, full=True):
-    """Builds and type-checks the witness against the current tree.  Returns (n_types, n_assertions, failures) where
-    failures = [(kind, what)] parsed from rustc's diagnostics."""
+def _build_and_check(kind, dep_lines, src, rustflags=None):
+    """Writes the witness crate `kind` for the current tree, type-checks it and returns the failed assertions
+    [(kind, what)] parsed from rustc's diagnostics."""
     root = extract.repo_root()
     tag = hashlib.sha256(root.encode()).hexdigest()[:8]
-    d = os.path.join(extract.CACHE, "witness-%s-%s" % (tag, "full" if full else "quick"))
+    d = os.path.join(extract.CACHE, "witness-%s-%s" % (tag, kind))
     os.makedirs(os.path.join(d, "src"), exist_ok=True)
-    tys = universe(impl_self_types, full)
-    src = source(tys)
+
     def put(path, text):
         # leave an identical file alone: cargo's freshness check then makes a warm, passing run cheap
         if not os.path.exists(path) or open(path).read() != text:
             with open(path, "w") as fh:
                 fh.write(text)
     put(os.path.join(d, "src", "lib.rs"), src)
-    put(os.path.join(d, "Cargo.toml"), '[package]\nname = "qbv_witness"\nversion = "0.0.0"\nedition = "2024"\n\n[workspace]\n\n[dependencies]\n'
-        'qbice_stable_type_id = { path = "%s/crates/stable_type_id" }\n' % root)
+    put(os.path.join(d, "Cargo.toml"), '[package]\nname = "qbv_witness_%s"\nversion = "0.0.0"\nedition = "2024"\n\n[workspace]\n\n[dependencies]\n%s' % (
+        kind.replace("-", "_"), "".join(l % root + "\n" for l in dep_lines)))
     if not os.path.exists(os.path.join(d, "Cargo.lock")):
         shutil.copy(os.path.join(root, "Cargo.lock"), os.path.join(d, "Cargo.lock"))
-    target = os.path.join(extract.CACHE, "target-witness-%s" % tag)
+    target = os.path.join(extract.CACHE, "target-witness-%s-%s" % (tag, "flags" if rustflags else "plain"))
     # cargo trusts mtimes; a tree restored with its old mtimes (rsync -a, cp -p) would be taken for fresh.  Key the
     # freshness on the content hash of the tree instead: on any change forget the workspace crates' fingerprints.
     h = extract.tree_hash(root) + hashlib.sha256(src.encode()).hexdigest()
@@ -191,6 +190,8 @@ def run(impl_self_types, full=True):
     env = dict(os.environ, CARGO_NET_OFFLINE="true", CARGO_TARGET_DIR=target, CARGO_INCREMENTAL="0")
     for k in ("RUSTFLAGS", "RUSTC_WRAPPER", "RUSTC_WORKSPACE_WRAPPER"):
         env.pop(k, None)
+    if rustflags:
+        env["RUSTFLAGS"] = rustflags
     r = subprocess.run(["cargo", "+nightly", "check", "--offline", "--message-format=json", "-q"], cwd=d, env=env,
                        stdout=subprocess.PIPE, stderr=subprocess.PIPE, text=True)
     failures, other = [], []
@@ -205,16 +206,87 @@ def run(impl_self_types, full=True):
         if msg.get("level") != "error":
             continue
         text = msg.get("rendered") or msg.get("message", "")
-        hit = re.search(r"QBV-WITNESS ([a-z-]+)\|([^\n\"]*)", text)
+        hit = re.search(r"QBV-WITNESS ([a-z0-9-]+)\|([^\n\"]*)", text)
         if hit:
             failures.append((hit.group(1), hit.group(2).strip()))
         elif "aborting due to" not in msg.get("message", "") and "could not compile" not in msg.get("message", ""):
             other.append((m.get("target", {}).get("name", "?"), msg.get("message", "")[:300]))
     if r.returncode != 0 and not failures:
-        raise EngineError("the C14 witness crate does not type-check for a reason other than a failed assertion:\n%s\n%s" % (
-            "\n".join("%s: %s" % o for o in other[:5]), r.stderr[-3000:]))
+        raise EngineError("the %s witness crate does not type-check for a reason other than a failed assertion:\n%s\n%s" % (
+            kind, "\n".join("%s: %s" % o for o in other[:5]), r.stderr[-3000:]))
     if r.returncode == 0:
         with open(stamp, "w") as fh:
             fh.write(h)
-    n_assert = src.count("const _: () = assert!")
-    return len(tys), n_assert, sorted(set(failures))
+    return sorted(set(failures))
+
+
+def run(impl_self_types, full=True):
+    """C14.f: (n_types, n_assertions, failures)."""
+    tys = universe(impl_self_types, full)
+    src = source(tys)
+    failures = _build_and_check("ids-full" if full else "ids-quick", ['qbice_stable_type_id = { path = "%s/crates/stable_type_id" }'], src)
+    return len(tys), src.count("const _: () = assert!"), failures
+
+
+# ---------------------------------------------------------------------------------------------------------------
+# C12.g: the private const fns of the wire primitives (LEB128 varints, zig-zag), reached through the cfg(qbice_verif)
+# hook `qbice_serialize::postcard::verif_hooks`
+
+def varint_source():
+    w = []
+    a = w.append
+    a("//! generated by /verif/engine/qbv/witness.py — compile-time witness for C12.g; never executed")
+    a("#![allow(long_running_const_eval, clippy::all, dead_code, unused)]")
+    a("use qbice_serialize::postcard::verif_hooks as h;")
+    for bits, cap in ((16, "MAX_VARINT_U16_BYTES"), (32, "MAX_VARINT_U32_BYTES"), (64, "MAX_VARINT_U64_BYTES"), (128, "MAX_VARINT_U128_BYTES")):
+        a("""/// encode_varint_u{b}(v) is the LEB128 form of v: minimal length, continuation bit on all but the last byte, and the
+/// 7-bit groups, least significant first, reassemble v
+const fn leb_u{b}(v: u{b}) -> bool {{
+    let mut buf = [0u8; h::{cap}];
+    let n = h::encode_varint_u{b}(v, &mut buf);
+    let mut want = 1; let mut t = v; while t >= 0x80 {{ t >>= 7; want += 1; }}
+    if n != want || n > h::{cap} {{ return false; }}
+    let mut acc: u{b} = 0; let mut i = 0;
+    while i < n {{
+        let byte = buf[i];
+        if ((byte & 0x80) != 0) != (i + 1 < n) {{ return false; }}
+        acc |= ((byte & 0x7f) as u{b}) << (7 * i);
+        i += 1;
+    }}
+    acc == v
+}}
+/// zig-zag maps 0, -1, 1, -2, 2 ... to 0, 1, 2, 3, 4 ... and decode inverts it
+const fn zz_i{b}(x: i{b}) -> bool {{
+    let e = h::zigzag_encode_i{b}(x);
+    let spec: u{b} = if x >= 0 {{ (x as u{b}) << 1 }} else {{ (((!x) as u{b}) << 1) | 1 }};
+    e == spec && h::zigzag_decode_i{b}(e) == x
+}}""".format(b=bits, cap=cap))
+        a("const _: () = assert!(h::%s >= (%d + 6) / 7, \"QBV-WITNESS varint-buffer|%s is too small for a %d-bit value\");" % (cap, bits, cap, bits))
+        vals = set()
+        for k in range(bits):
+            for d in (-1, 0, 1):
+                v = (1 << k) + d
+                if 0 <= v < (1 << bits):
+                    vals.add(v)
+        vals |= {0, (1 << bits) - 1, (1 << bits) - 2}
+        for v in sorted(vals):
+            a('const _: () = assert!(leb_u%d(%d), "QBV-WITNESS varint-u%d|encode_varint_u%d(%d) is not the LEB128 form of the value");' % (bits, v, bits, bits, v))
+        svals = set()
+        for k in range(bits - 1):
+            for d in (-1, 0, 1):
+                for sgn in (1, -1):
+                    x = sgn * ((1 << k) + d)
+                    if -(1 << (bits - 1)) <= x < (1 << (bits - 1)):
+                        svals.add(x)
+        svals |= {0, -1, 1, -(1 << (bits - 1)), (1 << (bits - 1)) - 1}
+        for x in sorted(svals):
+            lit = "i%d::MIN" % bits if x == -(1 << (bits - 1)) else "(%d)" % x
+            a('const _: () = assert!(zz_i%d(%s), "QBV-WITNESS zigzag-i%d|zig-zag of %d does not follow 0,-1,1,-2,.. -> 0,1,2,3,.. or does not decode back");' % (bits, lit, bits, x))
+    return "\n".join(w) + "\n"
+
+
+def run_varint():
+    """C12.g: (n_assertions, failures)."""
+    src = varint_source()
+    failures = _build_and_check("varint", ['qbice_serialize = { path = "%s/crates/serialize" }'], src, rustflags="--cfg qbice_verif")
+    return src.count("const _: () = assert!"), failures
